@@ -174,6 +174,8 @@ def shard(plan_ref, seed, examples):
     @given(strat)
     def body(ex):
         ri, raw, tweak, entropy, ci = ex
+        ri = (ri + entropy) % nrows          # Hypothesis biases small integers; the entropy term makes row coverage uniform
+        ci = (ci + (entropy >> 20)) % len(plan.cfgs)
         name = plan.rows[ri]
         tn, row = ROWS[name]
         w = build_word(row, raw, tweak)
